@@ -28,7 +28,7 @@ use parquet::arrow::arrow_reader::{
 use parquet::arrow::async_reader::{AsyncFileReader, ParquetRecordBatchStreamBuilder};
 use parquet::arrow::push_decoder::{ParquetPushDecoder, ParquetPushDecoderBuilder};
 use parquet::arrow::{ArrowWriter, ProjectionMask};
-use parquet::file::metadata::{PageIndexPolicy, ParquetMetaData, ParquetMetaDataReader};
+use parquet::file::metadata::{PageIndexPolicy, ParquetMetaData, ParquetMetaDataPushDecoder, ParquetMetaDataReader};
 use parquet::file::properties::{EnabledStatistics, WriterProperties};
 use parquet::file::reader::{ChunkReader, Length};
 use parquet::schema::types::SchemaDescriptor;
@@ -43,12 +43,14 @@ struct FileInfo {
     rg_rows: Vec<usize>,
     meta_idx: Arc<ParquetMetaData>,
     meta_noidx: Arc<ParquetMetaData>,
+    bloom: bool,
 }
 
 /// `<seed>.<nrows>.<rows per row group>.<rows per page>.<dictionary 0|1>`
 fn build_file(spec: &str) -> FileInfo {
     let f: Vec<usize> = spec.split('.').map(|x| x.parse().unwrap()).collect();
     let (seed, nrows, rg, page, dict) = (f[0] as u64, f[1], f[2].max(1), f[3].max(1), f[4] != 0);
+    let bloom = f.get(5).copied().unwrap_or(0);
     let mut rng = Rng::new(seed ^ 0xF11E);
     let schema = Arc::new(Schema::new(vec![
         Field::new("a", DataType::Int32, true),
@@ -90,6 +92,8 @@ fn build_file(spec: &str) -> FileInfo {
         .set_write_batch_size(page)
         .set_dictionary_enabled(dict)
         .set_statistics_enabled(EnabledStatistics::Page)
+        .set_bloom_filter_enabled(bloom != 0)
+        .set_bloom_filter_position(if bloom == 2 { parquet::file::properties::BloomFilterPosition::End } else { parquet::file::properties::BloomFilterPosition::AfterRowGroup })
         .build();
     let mut buf = vec![];
     let mut w = ArrowWriter::try_new(&mut buf, schema, Some(props)).unwrap();
@@ -107,7 +111,7 @@ fn build_file(spec: &str) -> FileInfo {
     let meta_noidx =
         Arc::new(ParquetMetaDataReader::new().with_page_index_policy(PageIndexPolicy::Skip).parse_and_finish(&bytes).unwrap());
     let rg_rows = meta_idx.row_groups().iter().map(|r| r.num_rows() as usize).collect();
-    FileInfo { bytes, nrows, rg_rows, meta_idx, meta_noidx }
+    FileInfo { bytes, nrows, rg_rows, meta_idx, meta_noidx, bloom: bloom != 0 }
 }
 
 static FILES: Mutex<Option<HashMap<String, Arc<FileInfo>>>> = Mutex::new(None);
@@ -135,7 +139,8 @@ struct Opts {
     bs: usize,
     pidx: bool,
     pol: char, // a auto, m mask, s selectors
-    cache0: bool,
+    cache: Option<usize>, // max_predicate_cache_size; None = default
+    empty_filter: bool,   // a RowFilter with no predicates (`f=-`)
 }
 
 fn show_opts(o: &Opts) -> String {
@@ -146,13 +151,13 @@ fn show_opts(o: &Opts) -> String {
         "s={}",
         o.sel.as_ref().map(|s| if s.is_empty() { "-".into() } else { s.iter().map(|(k, n)| format!("{}{}", if *k { 'k' } else { 's' }, n)).collect::<Vec<_>>().join(".") }).unwrap_or("*".into())
     ));
-    v.push(format!("f={}", if o.filt.is_empty() { "*".into() } else { o.filt.iter().map(|(c, m, r)| format!("{}{}.{}", c, m, r)).collect::<Vec<_>>().join("+") }));
+    v.push(format!("f={}", if o.filt.is_empty() { if o.empty_filter { "-".to_string() } else { "*".into() } } else { o.filt.iter().map(|(c, m, r)| format!("{}{}.{}", c, m, r)).collect::<Vec<_>>().join("+") }));
     v.push(format!("o={}", o.off.map(|x| x.to_string()).unwrap_or("*".into())));
     v.push(format!("l={}", o.lim.map(|x| x.to_string()).unwrap_or("*".into())));
     v.push(format!("b={}", o.bs));
     v.push(format!("x={}", o.pidx as u8));
     v.push(format!("y={}", o.pol));
-    v.push(format!("c={}", if o.cache0 { "0" } else { "d" }));
+    v.push(format!("c={}", o.cache.map(|x| x.to_string()).unwrap_or("d".into())));
     v.join(";")
 }
 
@@ -173,7 +178,8 @@ fn parse_opts(s: &str) -> Opts {
                 }
             }
             "f" => {
-                o.filt = if v == "*" {
+                o.empty_filter = v == "-";
+                o.filt = if v == "*" || v == "-" {
                     vec![]
                 } else {
                     v.split('+')
@@ -190,7 +196,7 @@ fn parse_opts(s: &str) -> Opts {
             "b" => o.bs = v.parse().unwrap(),
             "x" => o.pidx = v == "1",
             "y" => o.pol = v.chars().next().unwrap(),
-            "c" => o.cache0 = v == "0",
+            "c" => o.cache = if v == "d" { None } else { Some(v.parse().unwrap()) },
             _ => panic!("opt"),
         }
     }
@@ -245,6 +251,8 @@ fn apply<T>(mut b: ArrowReaderBuilder<T>, o: &Opts) -> ArrowReaderBuilder<T> {
     if !o.filt.is_empty() {
         let preds = o.filt.iter().map(|(c, m, r)| predicate(&sd, *c, *m, *r)).collect();
         b = b.with_row_filter(RowFilter::new(preds));
+    } else if o.empty_filter {
+        b = b.with_row_filter(RowFilter::new(vec![]));
     }
     if let Some(x) = o.off {
         b = b.with_offset(x);
@@ -257,8 +265,8 @@ fn apply<T>(mut b: ArrowReaderBuilder<T>, o: &Opts) -> ArrowReaderBuilder<T> {
         's' => RowSelectionPolicy::Selectors,
         _ => RowSelectionPolicy::default(),
     });
-    if o.cache0 {
-        b = b.with_max_predicate_cache_size(0);
+    if let Some(c) = o.cache {
+        b = b.with_max_predicate_cache_size(c);
     }
     b
 }
@@ -318,9 +326,26 @@ fn parse_ranges(s: &str) -> Vec<Range<u64>> {
         .collect()
 }
 
-fn new_decoder(f: &FileInfo, o: &Opts) -> Result<ParquetPushDecoder, String> {
+fn bytes_for(f: &FileInfo, r: &Range<u64>) -> Bytes {
+    // two physical layouts: a zero-copy slice of the file buffer, or a fresh allocation
+    let sl = f.bytes.slice(r.start as usize..r.end as usize);
+    if r.start % 2 == 1 { Bytes::copy_from_slice(&sl) } else { sl }
+}
+
+fn new_decoder(f: &FileInfo, o: &Opts, init: Option<&[Range<u64>]>) -> Result<ParquetPushDecoder, String> {
     let meta = if o.pidx { f.meta_idx.clone() } else { f.meta_noidx.clone() };
-    let b = ParquetPushDecoderBuilder::try_new_decoder_with_options(meta, reader_options(o)).map_err(|e| e.to_string())?;
+    // two entry points: try_new_decoder_with_options / new_with_metadata
+    let mut b = if o.bs % 2 == 0 {
+        ParquetPushDecoderBuilder::try_new_decoder_with_options(meta, reader_options(o)).map_err(|e| e.to_string())?
+    } else {
+        ParquetPushDecoderBuilder::new_with_metadata(ArrowReaderMetadata::try_new(meta, reader_options(o)).map_err(|e| e.to_string())?)
+    };
+    if let Some(rs) = init {
+        // bytes fetched before the decoder exists, handed over through `with_buffers`
+        let mut pb = if o.bs % 3 == 0 { PushBuffers::default() } else { PushBuffers::new(f.bytes.len() as u64) };
+        pb.push_ranges(rs.to_vec(), rs.iter().map(|r| bytes_for(f, r)).collect()).map_err(|e| e.to_string())?;
+        b = b.with_buffers(pb);
+    }
     apply(b, o).build().map_err(|e| e.to_string())
 }
 
@@ -330,6 +355,14 @@ enum Act {
     Poll,
     Clear,
     Rebuild,
+    /// call the OTHER front-end once (try_next_reader in a try_decode run and vice versa)
+    PollOther,
+    /// push a buffer one byte shorter than its range (rejected; leaves the decoder Finished)
+    Short(Range<u64>),
+    /// first action only: build the decoder `with_buffers` holding these ranges
+    WithBuf(Vec<Range<u64>>),
+    /// into_builder + changed batch size / selection policy / cache size / re-installed filter + build
+    Change(usize, char, Option<usize>),
 }
 fn show_sched(a: &[Act]) -> String {
     if a.is_empty() {
@@ -341,6 +374,10 @@ fn show_sched(a: &[Act]) -> String {
             Act::Poll => "T".into(),
             Act::Clear => "C".into(),
             Act::Rebuild => "B".into(),
+            Act::PollOther => "U".into(),
+            Act::Short(r) => format!("X{}", show_ranges(&[r.clone()])),
+            Act::WithBuf(r) => format!("W{}", show_ranges(r)),
+            Act::Change(b, p, c) => format!("K{}:{}:{}", b, p, c.map(|x| x.to_string()).unwrap_or("d".into())),
         })
         .collect::<Vec<_>>()
         .join(",")
@@ -354,6 +391,13 @@ fn parse_sched(s: &str) -> Vec<Act> {
             "P" => Act::Push(parse_ranges(&t[1..])),
             "T" => Act::Poll,
             "C" => Act::Clear,
+            "U" => Act::PollOther,
+            "X" => Act::Short(parse_ranges(&t[1..])[0].clone()),
+            "W" => Act::WithBuf(parse_ranges(&t[1..])),
+            "K" => {
+                let f: Vec<&str> = t[1..].split(':').collect();
+                Act::Change(f[0].parse().unwrap(), f[1].chars().next().unwrap(), if f[2] == "d" { None } else { Some(f[2].parse().unwrap()) })
+            }
             _ => Act::Rebuild,
         })
         .collect()
@@ -380,15 +424,58 @@ struct PushRun<'a> {
     last_need: Option<(Vec<Range<u64>>, Vec<bool>)>,
     problems: Vec<String>,
     n_needs: usize,
+    opts: Opts,
+    /// a deliberately bad push happened: the decoder is dead, only the prefix oracle applies
+    sabotaged: bool,
+    /// `peek_next_row_group()` taken at the last row-group boundary before a call
+    peeked: Option<Option<usize>>,
+    last_remaining: usize,
 }
 
 impl<'a> PushRun<'a> {
     fn new(f: &'a FileInfo, o: &Opts, mode: char) -> Result<Self, String> {
-        Ok(PushRun { f, mode, dec: Some(new_decoder(f, o)?), out: vec![], events: vec![], finished: false, errored: false, last_need: None, problems: vec![], n_needs: 0 })
+        Self::new_with(f, o, mode, None)
+    }
+    fn new_with(f: &'a FileInfo, o: &Opts, mode: char, init: Option<&[Range<u64>]>) -> Result<Self, String> {
+        Ok(PushRun {
+            f, mode, dec: Some(new_decoder(f, o, init)?), out: vec![], events: vec![], finished: false, errored: false,
+            last_need: None, problems: vec![], n_needs: 0, opts: o.clone(), sabotaged: false, peeked: None, last_remaining: usize::MAX,
+        })
+    }
+    /// row group a global row index (column `d`) belongs to
+    fn rg_of_row(&self, row: usize) -> usize {
+        let mut acc = 0;
+        for (i, n) in self.f.rg_rows.iter().enumerate() {
+            acc += n;
+            if row < acc {
+                return i;
+            }
+        }
+        usize::MAX
     }
     fn poll(&mut self) -> Ev {
+        self.poll_mode(self.mode)
+    }
+    fn poll_mode(&mut self, mode: char) -> Ev {
         let dec = self.dec.as_mut().unwrap();
-        let ev = if self.mode == 'd' {
+        // accessors that must not disturb anything: peek / remaining at a boundary
+        if dec.is_at_row_group_boundary() {
+            match dec.peek_next_row_group() {
+                Ok(p) => {
+                    if dec.peek_next_row_group().ok() != Some(p) {
+                        self.problems.push("peek-not-idempotent".into());
+                    }
+                    self.peeked = Some(p);
+                }
+                Err(_) => self.problems.push("peek-error".into()),
+            }
+        }
+        let rem = dec.row_groups_remaining();
+        if rem > self.last_remaining {
+            self.problems.push("row-groups-remaining-grew".into());
+        }
+        self.last_remaining = rem;
+        let ev = if mode == 'd' {
             match dec.try_decode() {
                 Ok(DecodeResult::NeedsData(r)) => Ev::Needs(r),
                 Ok(DecodeResult::Data(b)) => Ev::Batch(b),
@@ -434,16 +521,46 @@ impl<'a> PushRun<'a> {
             }
             Ev::Batch(b) => {
                 self.last_need = None;
+                if let Some(p) = self.peeked.take() {
+                    if b.num_rows() > 0 && self.opts.proj.is_none() {
+                        let d = b.column(3).as_any().downcast_ref::<Int64Array>().unwrap().value(0) as usize;
+                        let rg = self.rg_of_row(d);
+                        match p {
+                            None => self.problems.push("peek-none-but-batch".into()),
+                            Some(i) if self.opts.filt.is_empty() && i != rg => self.problems.push(format!("peek-{}-but-batch-of-rg-{}", i, rg)),
+                            _ => {}
+                        }
+                    }
+                }
                 self.out.push(b.clone());
                 self.events.push("D".into());
             }
             Ev::Reader(v) => {
                 self.last_need = None;
+                // the reader handed out is the one `peek_next_row_group` announced (exactly, when no
+                // predicate can rule a row group out; never an earlier one otherwise)
+                if let Some(p) = self.peeked.take() {
+                    let first = v.iter().find(|b| b.num_rows() > 0);
+                    if let (Some(b), true) = (first, self.opts.proj.is_none()) {
+                        let d = b.column(3).as_any().downcast_ref::<Int64Array>().unwrap().value(0) as usize;
+                        let rg = self.rg_of_row(d);
+                        match p {
+                            None => self.problems.push("peek-none-but-reader".into()),
+                            Some(i) if self.opts.filt.is_empty() && i != rg => self.problems.push(format!("peek-{}-but-reader-of-rg-{}", i, rg)),
+                            _ => {}
+                        }
+                    }
+                }
                 self.out.extend(v.iter().cloned());
                 self.events.push(format!("R{}", v.len()));
             }
             Ev::Finished => {
                 self.last_need = None;
+                if let Some(Some(i)) = self.peeked.take() {
+                    if self.opts.filt.is_empty() && !self.sabotaged {
+                        self.problems.push(format!("peek-{}-but-finished", i));
+                    }
+                }
                 self.finished = true;
                 self.events.push("F".into());
             }
@@ -455,9 +572,22 @@ impl<'a> PushRun<'a> {
         }
         ev
     }
+    fn push_short(&mut self, r: &Range<u64>) {
+        let b = bytes_for(self.f, r);
+        let b = b.slice(..b.len().saturating_sub(1));
+        match self.dec.as_mut().unwrap().push_range(r.clone(), b) {
+            Err(_) => self.events.push("x0".into()),
+            Ok(()) => self.events.push("x1".into()),
+        }
+        self.sabotaged = true;
+        self.peeked = None;
+    }
     fn push(&mut self, rs: &[Range<u64>]) {
-        let data: Vec<Bytes> = rs.iter().map(|r| self.f.bytes.slice(r.start as usize..r.end as usize)).collect();
-        if let Err(_) = self.dec.as_mut().unwrap().push_ranges(rs.to_vec(), data) {
+        let data: Vec<Bytes> = rs.iter().map(|r| bytes_for(self.f, r)).collect();
+        // two entry points: push_range for a single range, push_ranges otherwise
+        let dec = self.dec.as_mut().unwrap();
+        let r = if rs.len() == 1 { dec.push_range(rs[0].clone(), data[0].clone()) } else { dec.push_ranges(rs.to_vec(), data) };
+        if r.is_err() {
             self.events.push("p0".into());
         }
         if let Some((need, cov)) = &mut self.last_need {
@@ -474,11 +604,35 @@ impl<'a> PushRun<'a> {
             cov.iter_mut().for_each(|c| *c = false);
         }
     }
-    fn rebuild(&mut self) {
+    fn rebuild(&mut self, change: Option<(usize, char, Option<usize>)>) {
         let d = self.dec.take().unwrap();
         if d.is_at_row_group_boundary() {
-            match d.into_builder().and_then(|b| b.build()) {
+            let (pk, rem, bb) = (d.peek_next_row_group().ok(), d.row_groups_remaining(), d.buffered_bytes());
+            let built = d.into_builder().and_then(|mut b| {
+                if let Some((bs, pol, cache)) = change {
+                    // options that must not change which rows come out
+                    let sd = b.parquet_schema().clone();
+                    b = b.with_batch_size(bs).with_row_selection_policy(match pol {
+                        'm' => RowSelectionPolicy::Mask,
+                        's' => RowSelectionPolicy::Selectors,
+                        _ => RowSelectionPolicy::default(),
+                    });
+                    if let Some(c) = cache {
+                        b = b.with_max_predicate_cache_size(c);
+                    }
+                    if !self.opts.filt.is_empty() {
+                        let preds = self.opts.filt.iter().map(|(c, m, r)| predicate(&sd, *c, *m, *r)).collect();
+                        b = b.with_row_filter(RowFilter::new(preds));
+                    }
+                }
+                b.build()
+            });
+            match built {
                 Ok(nd) => {
+                    // the rebuilt decoder resumes exactly where the old one was
+                    if nd.peek_next_row_group().ok() != pk || nd.row_groups_remaining() != rem || nd.buffered_bytes() != bb || !nd.is_at_row_group_boundary() {
+                        self.problems.push("rebuild-changed-position".into());
+                    }
                     self.dec = Some(nd);
                     self.events.push("b1".into());
                 }
@@ -500,7 +654,14 @@ impl<'a> PushRun<'a> {
                 self.poll();
             }
             Act::Clear => self.clear(),
-            Act::Rebuild => self.rebuild(),
+            Act::Rebuild => self.rebuild(None),
+            Act::PollOther => {
+                let other = if self.mode == 'd' { 'n' } else { 'd' };
+                self.poll_mode(other);
+            }
+            Act::Short(r) => self.push_short(r),
+            Act::WithBuf(_) => {} // consumed at construction
+            Act::Change(b, p, c) => self.rebuild(Some((*b, *p, *c))),
         }
     }
 }
@@ -652,7 +813,41 @@ fn run_async<R: AsyncFileReader + Unpin + Send + 'static>(
         let arm = ArrowReaderMetadata::try_new(meta, reader_options(o)).map_err(|e| e.to_string())?;
         ParquetRecordBatchStreamBuilder::new_with_metadata(rd, arm)
     };
-    let _ = io;
+    let mut b = b;
+    let mut bloom_problem = None;
+    if f.bloom {
+        // bloom filters fetched through the async reader (pending futures, no effect on the fetch log)
+        // answer membership queries exactly like the ones the synchronous builder reads
+        io.in_meta.store(true, Ordering::SeqCst);
+        let sb = ParquetRecordBatchReaderBuilder::try_new_with_options(f.bytes.clone(), reader_options(o)).map_err(|e| e.to_string())?;
+        for rg in 0..f.rg_rows.len().min(3) {
+            for col in [0usize, 1, 3] {
+                let a = block_on(b.get_row_group_column_bloom_filter(rg, col));
+                let s = sb.get_row_group_column_bloom_filter(rg, col);
+                match (a, s) {
+                    (Ok(Some(a)), Ok(Some(s))) => {
+                        let same = if col == 0 {
+                            (-60i32..60).all(|v| a.check(&v) == s.check(&v))
+                        } else if col == 3 {
+                            (0i64..200).all(|v| a.check(&v) == s.check(&v))
+                        } else {
+                            ["", "a", "ab", "abc", "e", "zz", "abcde"].iter().all(|v| a.check(*v) == s.check(*v))
+                        };
+                        if !same {
+                            bloom_problem = Some(format!("bloom-differs rg={} col={}", rg, col));
+                        }
+                    }
+                    (Ok(None), Ok(None)) => {}
+                    (Err(_), Err(_)) => {}
+                    _ => bloom_problem = Some(format!("bloom-presence-differs rg={} col={}", rg, col)),
+                }
+            }
+        }
+        io.in_meta.store(false, Ordering::SeqCst);
+    }
+    if let Some(p) = bloom_problem {
+        io.bad.lock().unwrap().push(p);
+    }
     let mut stream = apply(b, o).build().map_err(|e| e.to_string())?;
     let w = futures::task::noop_waker();
     let mut cx = Context::from_waker(&w);
@@ -808,7 +1003,11 @@ fn run_rd(t: &[&str]) -> CaseOut {
     let sched = parse_sched(t[7]);
     let mut problems = vec![];
     let sync = run_sync(&f, &o);
-    let mut run = match PushRun::new(&f, &o, mode) {
+    let init: Option<Vec<Range<u64>>> = match sched.first() {
+        Some(Act::WithBuf(r)) => Some(r.clone()),
+        _ => None,
+    };
+    let mut run = match PushRun::new_with(&f, &o, mode, init.as_deref()) {
         Ok(r) => r,
         Err(_) => {
             if sync.is_ok() {
@@ -834,7 +1033,9 @@ fn run_rd(t: &[&str]) -> CaseOut {
         if sync.is_ok() {
             problems.push("push-error-but-sync-ok".into());
         }
-    } else if run.finished {
+    } else if run.events.iter().any(|e| e == "x1") {
+        problems.push("short-buffer-accepted".into());
+    } else if run.finished && !run.sabotaged {
         match &sync {
             Ok(s) => {
                 if !same_rows(s, &run.out) {
@@ -974,6 +1175,182 @@ fn run_cn(t: &[&str]) -> CaseOut {
     CaseOut { answer: format!("{} rows={}/{} {}", trace, rows, sync_rows, verdict), problems: vec![], info: format!("probe:{}", verdict) }
 }
 
+// ------------------------------------------------------------------ metadata push decoder
+
+fn md_policy(d: ParquetMetaDataPushDecoder, p: usize) -> ParquetMetaDataPushDecoder {
+    match p {
+        0 => d.with_page_index_policy(PageIndexPolicy::Skip),
+        1 => d.with_page_index_policy(PageIndexPolicy::Optional),
+        2 => d.with_page_index_policy(PageIndexPolicy::Required),
+        3 => d.with_column_index_policy(PageIndexPolicy::Skip).with_offset_index_policy(PageIndexPolicy::Required),
+        _ => d.with_column_index_policy(PageIndexPolicy::Optional).with_offset_index_policy(PageIndexPolicy::Skip),
+    }
+}
+fn md_sync(f: &FileInfo, p: usize) -> Result<ParquetMetaData, String> {
+    let r = ParquetMetaDataReader::new();
+    let r = match p {
+        0 => r.with_page_index_policy(PageIndexPolicy::Skip),
+        1 => r.with_page_index_policy(PageIndexPolicy::Optional),
+        2 => r.with_page_index_policy(PageIndexPolicy::Required),
+        3 => r.with_column_index_policy(PageIndexPolicy::Skip).with_offset_index_policy(PageIndexPolicy::Required),
+        _ => r.with_column_index_policy(PageIndexPolicy::Optional).with_offset_index_policy(PageIndexPolicy::Skip),
+    };
+    r.parse_and_finish(&f.bytes).map_err(|e| e.to_string())
+}
+
+/// the metadata push decoder under a schedule: events, decoded metadata, problems
+struct MetaRun<'a> {
+    f: &'a FileInfo,
+    dec: ParquetMetaDataPushDecoder,
+    events: Vec<String>,
+    got: Option<ParquetMetaData>,
+    done: bool,
+    problems: Vec<String>,
+    last_need: Option<(Vec<Range<u64>>, bool)>,
+}
+impl<'a> MetaRun<'a> {
+    fn new(f: &'a FileInfo, p: usize) -> Result<Self, String> {
+        let d = ParquetMetaDataPushDecoder::try_new(f.bytes.len() as u64).map_err(|e| e.to_string())?;
+        Ok(MetaRun { f, dec: md_policy(d, p), events: vec![], got: None, done: false, problems: vec![], last_need: None })
+    }
+    fn poll(&mut self) -> Option<Vec<Range<u64>>> {
+        let flen = self.f.bytes.len() as u64;
+        match self.dec.try_decode() {
+            Ok(DecodeResult::NeedsData(rs)) => {
+                for r in &rs {
+                    if !(r.start < r.end && r.end <= flen) {
+                        self.problems.push(format!("range-outside-file:{}-{}", r.start, r.end));
+                    }
+                }
+                if let Some((prev, true)) = &self.last_need {
+                    if *prev == rs {
+                        self.problems.push(format!("no-progress:{}", show_ranges(&rs)));
+                    }
+                }
+                self.last_need = Some((rs.clone(), false));
+                self.events.push(format!("N{}", show_ranges(&rs)));
+                Some(rs)
+            }
+            Ok(DecodeResult::Data(m)) => {
+                self.got = Some(m);
+                self.events.push("D".into());
+                None
+            }
+            Ok(DecodeResult::Finished) => {
+                self.done = true;
+                self.events.push("F".into());
+                None
+            }
+            Err(_) => {
+                self.done = true;
+                self.events.push("E".into());
+                None
+            }
+        }
+    }
+    fn act(&mut self, a: &Act) {
+        match a {
+            Act::Push(rs) => {
+                let data: Vec<Bytes> = rs.iter().map(|r| bytes_for(self.f, r)).collect();
+                let r = if rs.len() == 1 { self.dec.push_range(rs[0].clone(), data[0].clone()) } else { self.dec.push_ranges(rs.clone(), data) };
+                if r.is_err() {
+                    self.events.push("p0".into());
+                }
+                if let Some((need, cov)) = &mut self.last_need {
+                    if need.iter().all(|n| rs.iter().any(|r| r.start <= n.start && r.end >= n.end)) {
+                        *cov = true;
+                    }
+                }
+            }
+            Act::Clear => {
+                self.dec.clear_all_ranges();
+                if let Some((_, cov)) = &mut self.last_need {
+                    *cov = false;
+                }
+            }
+            _ => {
+                self.poll();
+            }
+        }
+    }
+}
+
+fn run_md(t: &[&str]) -> CaseOut {
+    // C15 md <file> <policy> <flen> <phases> <schedule>
+    let f = file(t[2]);
+    let p: usize = t[3].parse().unwrap();
+    let sched = parse_sched(t[6]);
+    let mut problems = vec![];
+    let mut run = match MetaRun::new(&f, p) {
+        Ok(r) => r,
+        Err(_) => return CaseOut { answer: "ERR:build".into(), problems, info: String::new() },
+    };
+    let mut after_finished = false;
+    for a in &sched {
+        if run.done {
+            after_finished = true;
+        }
+        run.act(a);
+    }
+    problems.extend(run.problems.iter().cloned());
+    let sync = md_sync(&f, p);
+    if run.events.iter().any(|e| e == "E") {
+        if sync.is_ok() {
+            problems.push("metadata-push-error-but-sync-ok".into());
+        }
+    } else if let Some(m) = &run.got {
+        match &sync {
+            Ok(s) => {
+                if s != m {
+                    problems.push("metadata-differs".into());
+                }
+            }
+            Err(_) => problems.push("metadata-sync-error-but-push-ok".into()),
+        }
+    }
+    CaseOut { answer: if run.events.is_empty() { "-".into() } else { run.events.join(",") }, problems, info: format!("mdpol:{}{}", p, if after_finished { " kf:md-after-finished" } else { "" }) }
+}
+
+/// ORACLE-ONLY op (the model answers SKIP): `into_builder` at row-group boundaries with CHANGED
+/// options that must not change the rows (batch size, selection policy, predicate cache size, the
+/// same predicates re-installed), under exact delivery; rows must equal the synchronous reader's.
+fn run_rb(t: &[&str]) -> CaseOut {
+    // C15 rb <file> <opts> <mode> <schedule>
+    let f = file(t[2]);
+    let o = parse_opts(t[3]);
+    let mode = t[4].chars().next().unwrap();
+    let sched = parse_sched(t[5]);
+    let mut problems = vec![];
+    let sync = run_sync(&f, &o);
+    let mut run = match PushRun::new(&f, &o, mode) {
+        Ok(r) => r,
+        Err(_) => return CaseOut { answer: "ERR:build".into(), problems, info: String::new() },
+    };
+    for a in &sched {
+        if run.errored {
+            break;
+        }
+        run.act(a);
+    }
+    problems.extend(run.problems.iter().cloned());
+    if run.errored {
+        if sync.is_ok() {
+            problems.push("push-error-but-sync-ok".into());
+        }
+    } else if run.finished {
+        match &sync {
+            Ok(s) => {
+                if !same_rows(s, &run.out) {
+                    problems.push(format!("rows-differ-after-reconfigure sync={} push={}", rows_of(s).0, rows_of(&run.out).0));
+                }
+            }
+            Err(_) => problems.push("sync-error-but-push-ok".into()),
+        }
+    }
+    let nb = run.events.iter().filter(|e| *e == "b1").count();
+    CaseOut { answer: format!("rows={} rebuilt={}", rows_of(&run.out).0, nb), problems, info: format!("rebuilt:{}", nb.min(5)) }
+}
+
 fn run_case_full(line: &str) -> CaseOut {
     let t: Vec<&str> = line.split(' ').collect();
     assert_eq!(t[0], "C15");
@@ -982,6 +1359,8 @@ fn run_case_full(line: &str) -> CaseOut {
         "rd" => run_rd(&t),
         "as" => run_as(&t),
         "cn" => run_cn(&t),
+        "md" => run_md(&t),
+        "rb" => run_rb(&t),
         _ => CaseOut { answer: "bad-op".into(), problems: vec![], info: String::new() },
     }
 }
@@ -1005,13 +1384,14 @@ fn gen_file_spec(rng: &mut Rng, pool: u64) -> String {
     let rg = *r.pick(&[5usize, 16, 20, 33, 50, 200]);
     let page = *r.pick(&[1usize, 3, 4, 7, 10, 1000]);
     let dict = r.usize(2);
-    format!("{}.{}.{}.{}.{}", id, nrows, rg, page, dict)
+    let bloom = *r.pick(&[0usize, 0, 1, 2]);
+    format!("{}.{}.{}.{}.{}.{}", id, nrows, rg, page, dict, bloom)
 }
 
 fn gen_opts(rng: &mut Rng, f: &FileInfo) -> Opts {
     let mut o = Opts { bs: *rng.pick(&[1usize, 2, 3, 5, 8, 16, 50, 1024]), pol: *rng.pick(&['a', 'a', 'm', 's']), ..Default::default() };
     o.pidx = rng.chance(3, 5);
-    o.cache0 = rng.chance(1, 5);
+    o.cache = if rng.chance(2, 5) { Some(*rng.pick(&[0usize, 0, 1, 64, 300, 1000, 5000])) } else { None };
     if rng.chance(3, 5) {
         let all = ["a", "b", "c", "d", "ab", "ad", "bc", "cd", "abd", "acd", "abcd", "da", "0"];
         o.proj = Some(rng.pick(&all).to_string());
@@ -1066,6 +1446,9 @@ fn gen_opts(rng: &mut Rng, f: &FileInfo) -> Opts {
             o.filt.push((c, m, r));
         }
     }
+    if o.filt.is_empty() && rng.chance(1, 8) {
+        o.empty_filter = true;
+    }
     if rng.chance(1, 3) {
         o.off = Some(*rng.pick(&[0usize, 1, 3, 10, 25, 60, 500]));
     }
@@ -1094,12 +1477,33 @@ fn shuffle<T>(rng: &mut Rng, v: &mut Vec<T>) {
 /// drive the real decoder adaptively with an adversarial strategy and record what was done
 fn gen_schedule(rng: &mut Rng, f: &FileInfo, o: &Opts, mode: char, strat: &str) -> Option<Vec<Act>> {
     let flen = f.bytes.len() as u64;
-    let mut run = PushRun::new(f, o, mode).ok()?;
     let mut acts: Vec<Act> = vec![];
+    let mut run = if strat == "withbuf" {
+        // bytes handed over through the builder: some whole column chunks, some random ranges, maybe the file
+        let mut v: Vec<Range<u64>> = (0..rng.usize(3)).map(|_| random_range(rng, flen)).collect();
+        for rg in f.meta_idx.row_groups() {
+            for c in rg.columns() {
+                if rng.chance(1, 2) {
+                    let (s, l) = c.byte_range();
+                    v.push(s..s + l);
+                }
+            }
+        }
+        if rng.chance(1, 5) {
+            v.push(0..flen);
+        }
+        shuffle(rng, &mut v);
+        acts.push(Act::WithBuf(v.clone()));
+        PushRun::new_with(f, o, mode, Some(&v)).ok()?
+    } else {
+        PushRun::new(f, o, mode).ok()?
+    };
     let mut clears = 0;
+    let short_at = if strat == "short" { 1 + rng.usize(4) } else { usize::MAX };
     fn doit_(acts: &mut Vec<Act>, run: &mut PushRun, a: Act) -> Ev {
         let ev = match &a {
             Act::Poll => run.poll(),
+            Act::PollOther => run.poll_mode(if run.mode == 'd' { 'n' } else { 'd' }),
             other => {
                 run.act(other);
                 Ev::Finished
@@ -1143,9 +1547,20 @@ fn gen_schedule(rng: &mut Rng, f: &FileInfo, o: &Opts, mode: char, strat: &str) 
         if polls > cut {
             break;
         }
-        let ev = doit!(&mut run, Act::Poll);
+        if polls == short_at {
+            // a truncated read: rejected, and the decoder is dead afterwards (answers Finished)
+            let r = random_range(rng, flen);
+            if r.end > r.start {
+                doit!(&mut run, Act::Short(r));
+                doit!(&mut run, Act::Poll);
+                doit!(&mut run, Act::Push(vec![0..flen]));
+                doit!(&mut run, Act::Poll);
+                break;
+            }
+        }
+        let ev = if rng.chance(1, 12) { doit!(&mut run, Act::PollOther) } else { doit!(&mut run, Act::Poll) };
         if let Ev::Needs(ms) = ev {
-            let s = if strat == "mixed" { *rng.pick(&["exact", "dup", "widen", "extra", "one", "each", "repoll", "clear"]) } else { strat };
+            let s = if strat == "mixed" { *rng.pick(&["exact", "dup", "widen", "extra", "one", "each", "repoll", "clear", "split"]) } else if strat == "withbuf" || strat == "short" { "exact" } else { strat };
             match s {
                 "dup" => {
                     let mut v = ms.clone();
@@ -1188,6 +1603,22 @@ fn gen_schedule(rng: &mut Rng, f: &FileInfo, o: &Opts, mode: char, strat: &str) 
                     clears += 1;
                     doit!(&mut run, Act::Push(ms.clone()));
                     doit!(&mut run, Act::Clear);
+                }
+                "split" => {
+                    // the two halves of a requested range together hold all its bytes, but no ONE
+                    // buffer contains it: the request must stay open (non-coalescing), also for
+                    // off-by-one neighbours
+                    let r = ms[rng.usize(ms.len())].clone();
+                    if r.end - r.start >= 2 {
+                        let mid = r.start + 1 + rng.below(r.end - r.start - 1);
+                        doit!(&mut run, Act::Push(vec![r.start..mid, mid..r.end]));
+                        doit!(&mut run, Act::Poll);
+                        doit!(&mut run, Act::Push(vec![r.start.saturating_sub(1)..r.end - 1, r.start + 1..(r.end + 1).min(flen)]));
+                        doit!(&mut run, Act::Poll);
+                    }
+                    // then widened by exactly one byte on each side
+                    let v: Vec<_> = ms.iter().map(|r| r.start.saturating_sub(1)..(r.end + 1).min(flen)).collect();
+                    doit!(&mut run, Act::Push(v));
                 }
                 "sub" => {
                     // a strict sub-range of a requested range does not satisfy it
@@ -1298,10 +1729,241 @@ fn gen_pb(rng: &mut Rng) -> (String, String) {
     (line, format!("op:pb {}", if has_push && has_get && ops.len() >= 3 { "nt" } else { "" }))
 }
 
+fn gen_md(rng: &mut Rng, spec: &str, pol: usize, strat: &str) -> Option<(String, String)> {
+    let f = file(spec);
+    let flen = f.bytes.len() as u64;
+    // phases from an exact-delivery run
+    let mut ex = MetaRun::new(&f, pol).ok()?;
+    let mut phases: Vec<(Vec<Range<u64>>, Option<usize>)> = vec![];
+    for _ in 0..20 {
+        match ex.poll() {
+            Some(rs) => {
+                phases.push((rs.clone(), None));
+                ex.act(&Act::Push(rs));
+            }
+            None => {
+                if ex.events.last().map(|e| e == "D").unwrap_or(false) {
+                    match phases.last_mut() {
+                        Some(p) if p.1.is_none() => p.1 = Some(1),
+                        _ => phases.push((vec![], Some(1))),
+                    }
+                }
+                break;
+            }
+        }
+    }
+    let ph = if phases.is_empty() { "-".to_string() } else { phases.iter().map(|(r, k)| format!("{}/{}", show_ranges(r), k.map(|k| k.to_string()).unwrap_or("x".into()))).collect::<Vec<_>>().join(";") };
+    // adversarial schedule, recorded
+    let mut run = MetaRun::new(&f, pol).ok()?;
+    let mut acts: Vec<Act> = vec![];
+    let mut go = |run: &mut MetaRun, a: Act| -> Option<Vec<Range<u64>>> {
+        let r = if let Act::Poll = a { run.poll() } else { run.act(&a); None };
+        acts.push(a);
+        r
+    };
+    if strat == "whole" {
+        go(&mut run, Act::Push(vec![0..flen]));
+    }
+    if strat == "tail" {
+        // the usual prefetch: the last k bytes of the file
+        let k = *rng.pick(&[8u64, 9, 64, 500, 4000]);
+        go(&mut run, Act::Push(vec![flen.saturating_sub(k)..flen]));
+    }
+    let mut n = 0;
+    while !run.done && n < 40 {
+        n += 1;
+        if let Some(ms) = go(&mut run, Act::Poll) {
+            let r = ms[0].clone();
+            match if strat == "mixed" { *rng.pick(&["exact", "widen", "split", "repoll", "clear", "dup"]) } else { strat } {
+                "widen" => {
+                    go(&mut run, Act::Push(vec![widen(rng, &r, flen)]));
+                }
+                "split" => {
+                    if r.end - r.start >= 2 {
+                        let mid = r.start + 1 + rng.below(r.end - r.start - 1);
+                        go(&mut run, Act::Push(vec![r.start..mid, mid..r.end]));
+                        go(&mut run, Act::Poll);
+                    }
+                    go(&mut run, Act::Push(vec![r.start.saturating_sub(1)..r.end]));
+                }
+                "repoll" => {
+                    go(&mut run, Act::Poll);
+                    go(&mut run, Act::Push(vec![r]));
+                }
+                "clear" => {
+                    go(&mut run, Act::Push(vec![r.clone()]));
+                    go(&mut run, Act::Clear);
+                    go(&mut run, Act::Poll);
+                    go(&mut run, Act::Push(vec![r]));
+                }
+                "dup" => {
+                    go(&mut run, Act::Push(vec![r.clone(), random_range(rng, flen), r]));
+                }
+                _ => {
+                    go(&mut run, Act::Push(vec![r]));
+                }
+            }
+        } else if run.got.is_some() && !run.done && rng.chance(1, 3) {
+            // after Data the decoder is finished: pushes are refused
+            go(&mut run, Act::Push(vec![random_range(rng, flen)]));
+        }
+    }
+    if run.done && rng.chance(1, 8) {
+        // calls after the first `Finished` (tagged kf:md-after-finished by run_md)
+        for _ in 0..1 + rng.usize(3) {
+            if rng.bool() { go(&mut run, Act::Poll); } else { go(&mut run, Act::Push(vec![random_range(rng, flen)])); }
+        }
+    }
+    let line = format!("C15 md {} {} {} {} {}", spec, pol, flen, ph, show_sched(&acts));
+    Some((line, format!("op:md strat:{} {}", strat, if phases.len() >= 2 && strat != "exact" { "nt" } else { "" })))
+}
+
+fn gen_rb(rng: &mut Rng, spec: &str, o: &Opts, mode: char) -> Option<(String, String)> {
+    let f = file(spec);
+    let mut run = PushRun::new(&f, o, mode).ok()?;
+    let mut acts: Vec<Act> = vec![];
+    let mut n = 0;
+    while !run.finished && n < 400 {
+        n += 1;
+        if run.dec.as_ref().unwrap().is_at_row_group_boundary() && rng.chance(2, 3) {
+            let a = Act::Change(
+                *rng.pick(&[1usize, 2, 3, 7, 16, 1024]),
+                *rng.pick(&['a', 'm', 's']),
+                if rng.bool() { Some(*rng.pick(&[0usize, 1, 64, 1000])) } else { None },
+            );
+            run.act(&a);
+            acts.push(a);
+            if run.errored {
+                break;
+            }
+        }
+        let ev = run.poll();
+        acts.push(Act::Poll);
+        if let Ev::Needs(ms) = ev {
+            run.push(&ms);
+            acts.push(Act::Push(ms));
+        }
+    }
+    let line = format!("C15 rb {} {} {} {}", spec, show_opts(o), mode, show_sched(&acts));
+    Some((line, format!("op:rb mode:{} filt:{} oracle-only", mode, o.filt.len())))
+}
+
+/// the options of a boundary block: selections / offsets / limits / batch sizes sitting exactly on
+/// row-group and page boundaries of the file
+fn boundary_opts(f: &FileInfo, page: usize) -> Vec<Opts> {
+    let base = Opts { bs: 1024, pol: 'a', ..Default::default() };
+    let mut v = vec![base.clone()];
+    let n = f.nrows;
+    if n == 0 {
+        return v;
+    }
+    let rg = f.rg_rows[0];
+    let sel = |s: Vec<(bool, usize)>| Opts { sel: Some(s), ..base.clone() };
+    // exactly the first row group skipped / only the second / only the last row / only the first row
+    v.push(sel(vec![(false, rg.min(n)), (true, n - rg.min(n))]));
+    if n > rg {
+        v.push(sel(vec![(false, rg), (true, rg.min(n - rg))]));
+        // the two rows straddling the first row-group boundary; the single row before / after it
+        v.push(sel(vec![(false, rg - 1), (true, 2)]));
+        v.push(sel(vec![(false, rg - 1), (true, 1)]));
+        v.push(sel(vec![(false, rg), (true, 1)]));
+    }
+    v.push(sel(vec![(false, n - 1), (true, 1)]));
+    v.push(sel(vec![(true, 1), (false, n - 1)]));
+    if page < n {
+        // exactly one page, the row before a page boundary, the row after it
+        v.push(sel(vec![(false, page), (true, page.min(n - page))]));
+        v.push(sel(vec![(false, page - 1), (true, 1), (false, 0), (true, 1)]));
+        // one row out of every page
+        let mut s = vec![];
+        let mut left = n;
+        while left > 0 && s.len() < 60 {
+            s.push((true, 1));
+            let k = (page - 1).min(left - 1);
+            if k > 0 {
+                s.push((false, k));
+            }
+            left -= 1 + k;
+        }
+        v.push(sel(s));
+    }
+    for (off, lim) in [(rg - 1, 2), (rg, 1), (rg, rg), (rg + 1, rg - 1), (0, rg), (0, rg + 1), (n - 1, 5), (n, 5), (rg.saturating_sub(1), 1), (2 * rg, 1), (0, n)] {
+        v.push(Opts { off: Some(off), lim: Some(lim), ..base.clone() });
+    }
+    for bs in [page, page + 1, rg, rg + 1, rg.saturating_sub(1).max(1)] {
+        v.push(Opts { bs, sel: Some(vec![(false, 1), (true, n - 1)]), ..base.clone() });
+    }
+    v
+}
+
+/// a fixed, deterministic block of boundary cases generated in every run
+fn dense_block(rng: &mut Rng, thorough: bool) -> Vec<(String, String)> {
+    let mut out = vec![];
+    let specs = ["201.120.20.7.1.0", "202.64.16.4.0.1", "203.90.33.1000.1.2", "204.150.50.10.0.0", "205.17.20.3.1.1"];
+    for spec in specs.iter() {
+        let f = file(spec);
+        let page: usize = spec.split('.').nth(3).unwrap().parse().unwrap();
+        // metadata decoder: every policy x every strategy
+        for pol in 0..5 {
+            for strat in ["exact", "whole", "tail", "widen", "split", "repoll", "clear", "dup", "mixed"] {
+                if let Some((l, t)) = gen_md(rng, spec, pol, strat) {
+                    out.push((l, format!("{} dense", t)));
+                }
+            }
+        }
+        let flen = f.bytes.len();
+        for (i, base) in boundary_opts(&f, page).into_iter().enumerate() {
+            for variant in 0..4 {
+                let mut o = base.clone();
+                o.pidx = variant % 2 == 0;
+                if variant >= 2 {
+                    o.filt = vec![('a', 2, 1)];
+                    o.pol = if i % 2 == 0 { 'm' } else { 's' };
+                    o.cache = [None, Some(0), Some(64)][i % 3];
+                }
+                let Ok(phases) = discover_phases(&f, &o) else { continue };
+                let strats: &[&str] = if thorough { &["exact", "split", "one", "withbuf", "widen", "each"] } else { &["split", "one", "withbuf"] };
+                let strat = strats[(i + variant) % strats.len()];
+                let mode = if (i + variant) % 2 == 0 { 'd' } else { 'n' };
+                if let Some(sched) = gen_schedule(rng, &f, &o, mode, strat) {
+                    out.push((
+                        format!("C15 rd {} {} {} {} {} {}", spec, show_opts(&o), mode, flen, phases, show_sched(&sched)),
+                        format!("op:rd dense strat:{} mode:{} bnd:{} nt", strat, mode, i.min(30)),
+                    ));
+                }
+                if variant % 2 == 1 {
+                    let pend = [1usize, 0, 2, 1, 0, 3];
+                    out.push((
+                        format!("C15 as {} {} {} {} {} {} {} {}", spec, show_opts(&o), mode, i % 2, (i / 2) % 2, show_list(&pend), flen, phases),
+                        format!("op:as dense mode:{} bnd:{} nt", mode, i.min(30)),
+                    ));
+                    if let Some(c) = gen_rb(rng, spec, &o, 'n') {
+                        out.push((c.0, format!("{} dense", c.1)));
+                    }
+                }
+            }
+        }
+    }
+    out
+}
+
 fn gen_case(rng: &mut Rng, pool: u64) -> Option<(String, String)> {
     let k = rng.below(10);
     if k < 2 {
         return Some(gen_pb(rng));
+    }
+    if rng.chance(1, 12) {
+        let spec = gen_file_spec(rng, pool);
+        let strat = *rng.pick(&["exact", "whole", "tail", "widen", "split", "repoll", "clear", "dup", "mixed", "mixed"]);
+        let pol = rng.usize(5);
+        return gen_md(rng, &spec, pol, strat);
+    }
+    if rng.chance(1, 12) {
+        let spec = gen_file_spec(rng, pool);
+        let f = file(&spec);
+        let o = gen_opts(rng, &f);
+        let m = if rng.chance(1, 4) { 'd' } else { 'n' };
+        return gen_rb(rng, &spec, &o, m);
     }
     if rng.chance(1, 100) {
         // out-of-domain probe, see `run_cn`
@@ -1330,7 +1992,7 @@ fn gen_case(rng: &mut Rng, pool: u64) -> Option<(String, String)> {
         o.proj.is_some() as u8
     );
     if k < 8 {
-        let strat = *rng.pick(&["exact", "dup", "widen", "extra", "whole", "one", "each", "mixed", "mixed", "prefetch", "sub", "repoll"]);
+        let strat = *rng.pick(&["exact", "dup", "widen", "extra", "whole", "one", "each", "mixed", "mixed", "prefetch", "sub", "repoll", "split", "split", "withbuf", "withbuf", "short"]);
         let sched = gen_schedule(rng, &f, &o, mode, strat)?;
         let line = format!("C15 rd {} {} {} {} {} {}", spec, show_opts(&o), mode, flen, phases, show_sched(&sched));
         tags = format!("op:rd strat:{} {} {}", strat, tags, if nph >= 2 && strat != "exact" { "nt" } else { "" });
@@ -1367,6 +2029,9 @@ fn main() {
         let mut rng = Rng::new(args.seed ^ 0xC15);
         let n = n_cases(&args, 12000, 300000);
         let pool = if args.tier == "thorough" { 400 } else { 40 };
+        for (line, tags) in dense_block(&mut rng, args.tier == "thorough") {
+            emit(&mut sink, line, tags);
+        }
         let mut made = 0;
         let mut tries = 0;
         while made < n && tries < 4 * n {
